@@ -3,6 +3,7 @@ import Driver.Modelled
 import Model.Audit
 import Model.PolicyObj
 import Model.Store
+import Model.Enfold
 /-!
 # `vaktdrv`: one case per line in, one result per line out
 -/
@@ -80,6 +81,7 @@ def pStoreOp : P Op
   | "get" :: ts => do let (u, ts) ← pStr ts; pure (.get u, ts)
   | "all" :: l :: o :: ts => do let l ← l.toInt?; let o ← o.toInt?; pure (.getAll l o, ts)
   | "retr" :: b :: ts => do let b ← b.toInt?; pure (.retrieveAll b, ts)
+  | "fault" :: ts => pure (.fault, ts)
   | _ => none
 
 open Vakt.Store in
@@ -90,6 +92,25 @@ def showOut : Out → String
   | .done => "done" | .existsErr => "exists" | .rejected => "rejected" | .valueError => "valueerror"
   | .pol none => "pol -" | .pol (some p) => "pol " ++ toString p
   | .pols l => "pols " ++ showSt l
+
+open Vakt.Store Vakt.Enfold in
+def pEOp : P EOp
+  | "pop" :: b :: ts => do let b ← b.toNat?; pure (.populate b, ts)
+  | ts => do
+    let (op, ts) ← pStoreOp ts
+    match op with
+    | .add u p ok => pure (.add u p ok, ts)
+    | .update u p ok => pure (.update u p ok, ts)
+    | .delete u => pure (.delete u, ts)
+    | .get u => pure (.get u, ts)
+    | .getAll l o => pure (.getAll l o, ts)
+    | .retrieveAll b => pure (.retrieveAll b, ts)
+    | .fault => pure (.fault, ts)
+
+def pBinding : P (List Char × Nat) := fun ts => do
+  let (u, ts) ← pStr ts
+  let (p, ts) ← pNat ts
+  pure ((u, p), ts)
 
 def handle (toks : List String) : Option String :=
   match toks with
@@ -150,6 +171,14 @@ def handle (toks : List String) : Option String :=
     let ops ← full (pCounted pStoreOp ts)
     let r := Vakt.Store.run ⟨sorted, eager⟩ [] ops
     pure (" | ".intercalate (r.2.map showOut) ++ " || " ++ showSt r.1)
+  | "ENFOLD" :: ts => do
+    let (sorted, ts) ← pBool ts
+    let (eager, ts) ← pBool ts
+    let (init, ts) ← pCounted pBinding ts
+    let ops ← full (pCounted pEOp ts)
+    let r := Vakt.Enfold.run ⟨sorted, eager⟩ ⟨[], init⟩ ops
+    pure (" | ".intercalate (r.2.map fun (o, t) => showOut o ++ " " ++ showB t) ++ " || " ++ showSt r.1.cache ++
+      " || " ++ showSt r.1.backend)
   | "POBJ" :: ts => do
     let (ctor, ts) ← pCounted pAssign ts
     let steps ← full (pCounted pAssign ts)
